@@ -171,6 +171,8 @@ def stage_concretise(ctx, o, r):
 def include_stage(ctx, mod_name, only=None):
     """regenerate the proof units of another property's module inside this check (obligation names are prefixed with the stage)"""
     import importlib
+    if isinstance(ctx, SubCtx):
+        return  # stages are included by the property being checked only, not transitively (no duplicates)
     mod = importlib.import_module(f"props.{mod_name}")
     sub = SubCtx(ctx, mod_name)
     if only is None:
